@@ -20,7 +20,7 @@ META = dict(
     level='proof',
     technique='Coq proof about a transcription of auto_xact_t::extend_xact / post_pred / xact_base_t::verify / the add_xact rule loop (extension = input ++ concat_map over the matching non-generated postings; generated postings never re-match for any number and order of rules; rules only reach later transactions; exact multiplication; the memoised quick matcher equals the full predicate; unbalanced extension rejected) + differential correspondence against ledger',
     level_text='Theorems in coq/Properties/Properties_C16.v are stated for the executable model of extend_xact (snapshot loop skipping the postings made by rules: ITEM_GENERATED without POST_CALCULATED, quick matcher with memo and fallback, amount multiply/copy, flags and state of the new posting, verify when a new posting must balance) inside the journal loop that keeps the rule list in file order and applies it after finalize. The model is tied to the code by running whole generated journals through ledger and through the extracted model and comparing, per transaction, acceptance and error class and, per posting, account, kind, exact rational amount and precision counter, cost, flags and state.',
-    level_note='How extend_xact registers the rule line\'s account the second time is read from the source on every run (Gen/AutoXactRoot.src_extend_realias) and selects the model\'s behaviour and the theorem in force (Properties_C16.generated_posting_account_in_force): with alias expansion active there (the code before /repo 3f98a1d, finding F120) the aliases in force at the transaction hit the account again, the model does the same (realias) and generated_posting_has_line_account_refuted applies; with expansion switched off around the call (the repaired code, /repo 3f98a1d) the alias table never reaches rule lines and generated_posting_has_line_account applies. The oracle always requires the account the line names at the rule\'s place (key rule-line-account-re-aliased). Account names reach the model RESOLVED (master account, apply account, one alias round at the place of the posting / rule line), computed by the harness; that rule lines and postings use the same root (top_account()) is regenerated from the source into Gen/AutoXactRoot.v and required by rule_lines_resolve_like_postings. F33 (rules skipped the postings finalize makes for the second and later commodities of an elided amount) was repaired by /repo e69e5ce; the model follows the fixed code (a posting is skipped only when ITEM_GENERATED without POST_CALCULATED), Properties_C16.journal_extension_every_posting is the full statement and the oracle key elided-commodity-posting-not-matched is a violation. Trusted as C01 (finalize is the C01/C02 model). Regular expressions are restricted to literal, case-insensitive substrings; predicates to account / payee matches and `amount < LIT`, `amount > LIT` under ! & |. Not modelled: rule lines with costs or amount expressions, `$account` and %(format) account names, notes/tags and assert/check lines of a rule, --strict/--pedantic, period transactions.',
+    level_note='How extend_xact registers the rule line\'s account the second time is read from the source on every run (Gen/AutoXactRoot.src_extend_realias) and selects the model\'s behaviour and the theorem in force (Properties_C16.generated_posting_account_in_force): with alias expansion active there (the code before /repo 3f98a1d, finding F120) the aliases in force at the transaction hit the account again, the model does the same (realias) and generated_posting_has_line_account_refuted applies; with expansion switched off around the call (the repaired code, /repo 3f98a1d) the alias table never reaches rule lines and generated_posting_has_line_account applies. The oracle always requires the account the line names at the rule\'s place (key rule-line-account-re-aliased). Account names reach the model RESOLVED (master account, apply account, one alias round at the place of the posting / rule line), computed by the harness; that rule lines and postings use the same root (top_account()) is regenerated from the source into Gen/AutoXactRoot.v and required by rule_lines_resolve_like_postings. F33 (rules skipped the postings finalize makes for the second and later commodities of an elided amount) was repaired by /repo e69e5ce; the model follows the fixed code (a posting is skipped only when ITEM_GENERATED without POST_CALCULATED), Properties_C16.journal_extension_every_posting is the full statement and the oracle key elided-commodity-posting-not-matched is a violation. Trusted as C01 (finalize is the C01/C02 model). Regular expressions are restricted to literal, case-insensitive substrings; predicates to account / payee matches, `amount < LIT`, `amount > LIT` and the constants true / false under ! & | == ?: (numeric constants are left out: post_pred takes `account =~ /F/ == 1` as `== true` while the full predicate raises `Cannot compare a boolean to an amount`, so the same sub-expression is accepted or an error depending on whether another operand sends the rule to the full predicate). Which operators the quick matcher post_pred handles, each with its exact body, is regenerated from src/xact.cc into Gen/PostPred.v on every run (harness/translators/c16_post_pred.py); quick_eval of the model takes a case only when the source has it in the transcribed form, quick_matcher_cases_as_transcribed and quick_match_answers_account_only REQUIRE all seven. Not modelled: rule lines with costs or amount expressions, `$account` and %(format) account names, notes/tags and assert/check lines of a rule, --strict/--pedantic, period transactions.',
     design_ref='DESIGN.md section 7 C16',
     assumptions=['commodities $ EUR AAA CCC in plain styles, every amount written with its commodity\'s usual number of decimals',
                  'account and payee patterns are literal alphanumeric substrings (regex = case-insensitive substring)',
@@ -67,15 +67,29 @@ class Pred:
             return [self.op, self.args[0].encode()]
         if self.op in ('lt', 'gt'):
             return [self.op, self.args[0].sx()]
+        if self.op == 'const':
+            return ['const', 1 if self.args[0] else 0]
         return [self.op] + [a.sx() for a in self.args]
 
     def atom(self):
-        return self.op in ('acct', 'payee', 'lt', 'gt')
+        return self.op in ('acct', 'payee', 'lt', 'gt', 'const')
+
+    def bare(self):
+        """may stand without parentheses beside == ? : (a match or a constant)"""
+        return self.op in ('acct', 'payee', 'const')
+
+    def acct_only(self):
+        """built from account matches and true / false only: the quick matcher answers without the full predicate"""
+        if self.op in ('acct', 'const'):
+            return True
+        if self.op in ('payee', 'lt', 'gt'):
+            return False
+        return all(a.acct_only() for a in self.args)
 
     def query_ok(self):
         if self.op in ('acct', 'payee'):
             return True
-        if self.op in ('lt', 'gt'):
+        if self.op in ('lt', 'gt', 'const', 'eq', 'query'):
             return False
         return all(a.query_ok() for a in self.args)
 
@@ -87,8 +101,17 @@ class Pred:
             return 'payee =~ /%s/' % self.args[0]
         if o in ('lt', 'gt'):
             return 'amount %s %s' % ('<' if o == 'lt' else '>', self.args[0].text())
+        if o == 'const':
+            return 'true' if self.args[0] else 'false'
         if o == 'not':
             return '!(%s)' % self.args[0].expr_text(False)
+        if o in ('eq', 'query'):
+            # every operand that is not a match or a constant stands in parentheses: the tree is the text
+            # (`a =~ /x/ == b =~ /y/` would read as `((a =~ /x/) == b) =~ /y/`: the right side of == is bare only
+            # when it is a constant)
+            ts = [a.expr_text(False) if (a.bare() and not (o == 'eq' and k == 1 and a.op != 'const')) else '(%s)' % a.expr_text(False)
+                  for k, a in enumerate(self.args)]
+            return '%s == %s' % tuple(ts) if o == 'eq' else '%s ? %s : %s' % tuple(ts)
         sym = ' & ' if o == 'and' else ' | '
         l, r = self.args
         lt = l.expr_text(False) if (l.atom() or l.op == o) else '(%s)' % l.expr_text(False)
@@ -119,10 +142,19 @@ class Pred:
             if lit.sym is not None and lit.sym != sym:
                 return None
             return val < lit.value if o == 'lt' else val > lit.value
+        if o == 'const':
+            return bool(self.args[0])
         if o == 'not':
             a = self.args[0].holds(payee, acct, sym, val)
             return None if a is None else (not a)
         a = self.args[0].holds(payee, acct, sym, val)
+        if o == 'eq':                    # holds when both sides hold or neither does
+            b = self.args[1].holds(payee, acct, sym, val)
+            return None if (a is None or b is None) else (a == b)
+        if o == 'query':                 # c ? p : q
+            if a is None:
+                return None
+            return self.args[1 if a else 2].holds(payee, acct, sym, val)
         if o == 'and':
             if a is False:
                 return False
@@ -173,6 +205,55 @@ def gen_chain(rng, depth, allow_amount=True, atom_first=True):
                 t = Pred('not', t)
         e = Pred(op, e, t)
     return e
+
+
+def gen_term(rng, depth, acct_only):
+    """an operand of == ?: & | : an atom, a constant, or a nested ==, ?:, &, |, ! over such operands"""
+    r = rng.random()
+    if depth <= 0 or r < 0.45:
+        if rng.random() < 0.2:
+            return Pred('const', rng.random() < 0.5)
+        return Pred('acct', rng.choice(APATS)) if acct_only else gen_atom(rng)
+    sub = lambda: gen_term(rng, depth - 1, acct_only)
+    if r < 0.62:
+        return Pred('eq', sub(), sub())
+    if r < 0.78:
+        return Pred('query', sub(), sub(), sub())
+    if r < 0.88:
+        return Pred('not', sub())
+    op = rng.choice(['and', 'or'])
+    a, b = sub(), sub()
+    if a.op == op or b.op == op:         # (a & b) & c would print without the inner group; keep trees = text
+        b = Pred('not', b)
+    if a.op == op:
+        a = Pred('not', a)
+    return Pred(op, a, b)
+
+
+def gen_eqq(rng):
+    """-> (predicate with ==, ?: and true / false, kind).  The text after `expr` must begin with a word (a leading
+    `(` or `!` is the query lexer's), so the tree begins with a match or a constant.  Half of them look at the
+    account only (post_pred answers, memoised by account name), the others also at payee / amount (post_pred throws at
+    the first such operand it REACHES - & | ?: do not reach every operand - and the full predicate takes over)"""
+    acct_only = rng.random() < 0.5
+    r0 = rng.random()
+    first = (Pred('const', rng.random() < 0.5) if r0 < 0.15 else
+             Pred('payee', rng.choice(PPATS)) if (r0 < 0.3 and not acct_only) else Pred('acct', rng.choice(APATS)))
+    t = lambda: gen_term(rng, 2, acct_only)
+    r = rng.random()
+    if r < 0.4:
+        p = Pred('eq', first, t())
+    elif r < 0.75:
+        p = Pred('query', first, t(), t())
+    elif r < 0.8:
+        p = first if first.op == 'const' else Pred('eq', first, Pred('const', rng.random() < 0.5))
+    else:
+        op = rng.choice(['and', 'or'])
+        b = t()
+        if b.op == op:
+            b = Pred('not', b)
+        p = Pred(op, first, b)
+    return p, ('acct-only' if p.acct_only() else 'mixed')
 
 
 # ---------------------------------------------------------------------------- rules
@@ -331,12 +412,16 @@ def gen_lines(rng):
 
 def gen_rule(rng):
     r = rng.random()
+    eqq = None
     if r < 0.35:
         p = Pred('acct', rng.choice(APATS))
         syn = rng.choice(['/%s/', '/%s/', '%s', 'expr' + ws(rng) + 'account =~ /%s/']) % p.args[0]
     elif r < 0.55:
         p = gen_chain(rng, 2, allow_amount=False, atom_first=False)
         syn = p.query_text(rng)
+    elif r < 0.73:
+        p, eqq = gen_eqq(rng)
+        syn = 'expr' + ws(rng) + p.expr_text()
     else:
         p = gen_chain(rng, 2)
         syn = 'expr' + ws(rng) + p.expr_text()
@@ -345,6 +430,8 @@ def gen_rule(rng):
     lines, shape = gen_lines(rng)
     rule = Rule(p, lines, syn)
     rule.shape = shape
+    if eqq:
+        rule.eqq = eqq
     rule.lead = rng.choice([' ', ' ', ' ', '\t', '  ', ' \t'])
     if rng.random() < 0.35:
         for l in lines:
@@ -635,6 +722,8 @@ def pred_spec(p):
         return [p.op, p.args[0]]
     if p.op in ('lt', 'gt'):
         return [p.op, amt_spec(p.args[0])]
+    if p.op == 'const':
+        return ['const', bool(p.args[0])]
     return [p.op] + [pred_spec(a) for a in p.args]
 
 
@@ -643,6 +732,8 @@ def pred_unspec(x):
         return Pred(x[0], x[1])
     if x[0] in ('lt', 'gt'):
         return Pred(x[0], amt_unspec(x[1]))
+    if x[0] == 'const':
+        return Pred('const', bool(x[1]))
     return Pred(x[0], *[pred_unspec(a) for a in x[1:]])
 
 
@@ -1004,6 +1095,8 @@ def check_journal(ctx, res, j, items, model):
         if isinstance(it, Rule):
             nrules += 1
             res.count('rule:' + it.shape)
+            if getattr(it, 'eqq', None):
+                res.count('pred-eq-query-const:' + it.eqq)
             res.count('rule-lines:%d' % len(it.lines))
             continue
         res.evaluations += 1
@@ -1113,6 +1206,21 @@ def fixed_journals():
         rr.lines[0].lead, rr.lines[0].sep = '\t', '\t'
         js.append([teach(), rr, food(10), food(20),
                    Txn([P('Expenses:Rent', 'R', A(F(30), 2, '$')), P('Assets:Cash', 'R', A(F(-30), 2, '$'))], '2020/04/01')])
+    # constants, == and ?: in the predicate.  Looking at accounts only, post_pred answers (memo by account name: the
+    # second and third transaction hit it); with a payee or amount operand it throws when it reaches that operand and
+    # the full predicate decides.  `==` also holds when NEITHER side does; `= expr true` fires on every posting
+    AC = lambda pat: Pred('acct', pat)
+    T_, F_ = Pred('const', True), Pred('const', False)
+    for pr in (Pred('eq', AC('Food'), AC('Expenses')), Pred('query', AC('Food'), F_, T_), T_, F_, Pred('eq', AC('Food'), F_),
+               Pred('and', Pred('payee', 'x'), Pred('eq', AC('Food'), AC('Rent'))),
+               Pred('query', AC('Cash'), Pred('gt', A(F(-15), 0, None)), AC('Food')),
+               Pred('or', F_, Pred('query', Pred('eq', AC('Rent'), AC('Cash')), Pred('payee', 'x2'), T_)),
+               Pred('eq', Pred('payee', 'x1'), Pred('not', AC('Food')))):
+        rr = Rule(pr, [Line('Budget:Meals', 'V', mult(('-1', 0)))], 'expr ' + pr.expr_text())
+        rr.shape = 'fixed-eq-query'
+        rr.eqq = 'acct-only' if pr.acct_only() else 'mixed'
+        js.append([teach(), rr, food(10), food(20),
+                   Txn([P('Expenses:Rent', 'R', A(F(30), 2, '$')), P('Assets:Cash', 'R', A(F(-30), 2, '$'))], '2020/04/01')])
     for jn in js:
         for it in jn:
             if isinstance(it, Txn) and not hasattr(it, 'shape'):
@@ -1124,7 +1232,7 @@ def run(ctx, n_override=None):
     rng = ctx.rng
     res = lib.Result()
     res.rule = ('journals interleaving 0-4 rules (account / payee substring predicates in query and expr syntax, amount comparisons, '
-                '! & | combinations; 1-4 lines: multipliers with 0-8 decimals incl. 0 and negative, fixed amounts, real / (virtual) / '
+                '! & | combinations, and a stream with == ?: true false whose operands are nested two deep - half of them over accounts only, which post_pred answers and memoises, the others with payee / amount operands that send the rule to the full predicate when reached; 1-4 lines: multipliers with 0-8 decimals incl. 0 and negative, fixed amounts, real / (virtual) / '
                 '[balanced] lines, state marks; balancing pairs, virtual-only, deliberately unbalancing, a line without amount; a family mixing real / [balanced] / (virtual) lines in every order whose must-balance lines sum to zero or miss it by a small residue, a missing counter-line or a counter-line in another commodity) with 1-30 '
                 'transactions; blanks, TABs and runs of both between the words of a predicate, before and after the amounts; transactions (plain, elided incl. two commodities, virtual, cost, unbalanced; cleared/pending), `apply account` '
                 'blocks around arbitrary stretches of the file (rules only, transactions only, both, nested once, rule inside and match '
